@@ -1,9 +1,16 @@
 package main
 
 import (
+	"encoding/hex"
 	"encoding/json"
 	"fmt"
 	"os"
+	"runtime"
+	"time"
+
+	mqtt "github.com/mochi-mqtt/server/v2"
+
+	"verif/harness/eng"
 
 	"verif/harness/hist"
 )
@@ -27,6 +34,12 @@ func replayFile(path string) int {
 	if err := json.Unmarshal(b, &doc); err != nil {
 		fmt.Println("replay:", err)
 		return 2
+	}
+	var hw struct {
+		Stream *hostileStream `json:"stream"`
+	}
+	if json.Unmarshal(doc.Violation.Witness, &hw) == nil && hw.Stream != nil && len(hw.Stream.Conns) > 0 {
+		return replayHostile(doc.Property, path, hw.Stream)
 	}
 	var w struct {
 		Config  *hist.Config `json:"config"`
@@ -53,4 +66,47 @@ func replayFile(path string) int {
 		fmt.Printf("VIOLATION property=%s replay=%s\n", doc.Property, path)
 	}
 	return rc
+}
+
+// replayHostile re-delivers a recorded hostile stream to a fresh broker in this process.
+func replayHostile(prop, path string, hs *hostileStream) int {
+	b := eng.NewBroker(eng.Options{Caps: func(c *mqtt.Capabilities) { c.MaximumPacketSize = hs.MPS }})
+	d, _ := dConnect(b, 5, "ref", true, nil, nil)
+	d.send(subscribePkt(1, "ref/t", 1))
+	ref := &refClient{d: d}
+	var conns []*eng.Client
+	for range hs.Conns {
+		conns = append(conns, b.Attach())
+	}
+	for k := 0; ; k++ {
+		any := false
+		for i, chunks := range hs.Conns {
+			if k < len(chunks) {
+				ch, _ := hex.DecodeString(chunks[k])
+				conns[i].SendRaw(ch)
+				any = true
+			}
+		}
+		if !any {
+			break
+		}
+	}
+	if !b.Quiesce(10 * time.Second) {
+		fmt.Println("broker did not become quiescent within 10 s; goroutines:")
+		buf := make([]byte, 1<<20)
+		fmt.Println(string(buf[:runtime.Stack(buf, true)]))
+		fmt.Printf("VIOLATION property=%s replay=%s\n", prop, path)
+		return 1
+	}
+	for i, c := range conns {
+		cl, _ := c.MC.BrokerClosed()
+		fmt.Printf("hostile connection %d: closed=%v handler_returned=%v consumed=%d bytes\n", i, cl, c.Done(), c.MC.Consumed())
+	}
+	if why := ref.round(b); why != "" {
+		fmt.Println("reference client:", why)
+		fmt.Printf("VIOLATION property=%s replay=%s\n", prop, path)
+		return 1
+	}
+	fmt.Println("stream delivered; broker quiescent; reference client served")
+	return 0
 }
